@@ -14,7 +14,15 @@ import (
 	"time"
 )
 
-const VerifDir = "/verif"
+// VerifDir is the root of the verification tree (evidence, replay, scratch,
+// known findings). bin/check exports VERIF_DIR as its own root so that a
+// snapshot of /verif run elsewhere keeps its outputs to itself.
+var VerifDir = func() string {
+	if d := os.Getenv("VERIF_DIR"); d != "" {
+		return d
+	}
+	return "/verif"
+}()
 
 // Rand is a small splittable PRNG (splitmix64). Every random choice of a case
 // derives from (VERIF_SEED, check id, case index) through Split, so a case is
